@@ -347,6 +347,7 @@ func (n *node) RegisterName(name gen.Atom, pid gen.PID) error {
 
 	n.log.Trace("RegisterName %s to %s", name, pid)
 
+	lib.VerifPoint("name.lookup", pid)
 	value, ok := n.processes.Load(pid)
 	if ok == false {
 		return gen.ErrProcessUnknown
@@ -357,15 +358,18 @@ func (n *node) RegisterName(name gen.Atom, pid gen.PID) error {
 		return gen.ErrProcessTerminated
 	}
 
+	lib.VerifPoint("name.flag", p)
 	if p.registered.CompareAndSwap(false, true) == false {
 		return gen.ErrTaken
 	}
 
+	lib.VerifPoint("name.store", p)
 	if _, exist := n.names.LoadOrStore(name, p); exist {
 		p.registered.Store(false)
 		return gen.ErrTaken
 	}
 
+	lib.VerifPoint("name.set", p)
 	p.name = name
 
 	return nil
@@ -376,6 +380,7 @@ func (n *node) UnregisterName(name gen.Atom) (gen.PID, error) {
 		return gen.PID{}, gen.ErrNodeTerminated
 	}
 
+	lib.VerifPoint("unname.delete", name)
 	value, exist := n.names.LoadAndDelete(name)
 	if exist == false {
 		return gen.PID{}, gen.ErrNameUnknown
@@ -386,6 +391,7 @@ func (n *node) UnregisterName(name gen.Atom) (gen.PID, error) {
 
 	n.log.Trace("UnregisterName %s belonged to %s", name, p.pid)
 
+	lib.VerifPoint("unname.drain", name)
 	pname := gen.ProcessID{Name: name, Node: n.name}
 	n.RouteTerminateProcessID(pname, gen.ErrUnregistered)
 	return p.pid, nil
